@@ -217,6 +217,10 @@ impl Group for Request1 {
                 let mut stalls = vec![head_len - 1, head_len.saturating_sub(2).max(1), first_line_end, second_line_end, (second_line_end + 5).min(head_len - 1), rng.range(1, head_len - 1)];
                 stalls.sort();
                 stalls.dedup();
+                // a proper prefix of the head that does not hold the blank line yet (a request without header lines ends
+                // right after its first line break pair)
+                let has_blank = |b: &[u8]| b.windows(2).any(|w| w == b"\n\n") || b.windows(3).any(|w| w == b"\n\r\n");
+                stalls.retain(|c| *c < head_len && *c >= 1 && !has_blank(&bytes[..*c]));
                 for c in stalls {
                     for pat in ["[]", "[7]"] {
                         v.push(format!("{} #stalled", mk(&bytes[..c], pat, "").replacen("c07.request ", "c07.request-open ", 1)));
